@@ -54,7 +54,7 @@ pub struct Target {
 #[derive(Clone, Debug)]
 pub enum Item {
     Target(Target),
-    Struct { file: String, name: String, drop_generics: Vec<String>, fields_pub: bool },
+    Struct { file: String, name: String, rename: Option<String> },
     Const { file: String, name: String },
     Raw(String),
 }
@@ -171,13 +171,12 @@ fn parse_into(text: &str, path: &str, include_dir: &str, unit: &mut Unit) -> Res
                 None => unit.drop_generics.extend(a_trim.split_whitespace().map(String::from)),
             },
             "struct" | "enum" => {
-                let (file, _, _, name) = parse_source(&a_trim)?;
-                unit.items.push(Item::Struct {
-                    file,
-                    name,
-                    drop_generics: Vec::new(),
-                    fields_pub: true,
-                });
+                let (src, rename) = match a_trim.find(" as ") {
+                    Some(i) => (a_trim[..i].to_string(), Some(a_trim[i + 4..].trim().to_string())),
+                    None => (a_trim.clone(), None),
+                };
+                let (file, _, _, name) = parse_source(&src)?;
+                unit.items.push(Item::Struct { file, name, rename });
             }
             "const" => {
                 let (file, _, _, name) = parse_source(&a_trim)?;
